@@ -76,7 +76,8 @@ class _Helper(loopcut.Helper):
         return v
 
     def assume_inv(self, loc):
-        pass
+        if getattr(self, "extra_inv", None) is not None:
+            self.extra_inv(loc, self.prev)
 
     def back_edge(self, loc):
         c = loc["converged_fixed_point"]
@@ -140,6 +141,22 @@ def _cic(mode, friction, nF=2, layout=None, both_closed=False):
                     k.assume(v <= ATOL)
                     k.assume(v >= -ATOL)
         helper = _Helper(mode, k)
+        if both_closed:
+            # this variant is about the friction projection of two closed contacts; to keep the number of paths small it is
+            # restricted to states that pass the final consistency checks (their rejection is proved by the other variants)
+            # and to contacts that both carry a normal force (the Signorini branches are proved by the other variants)
+            def extra_inv(loc, prev):
+                with npshim.active(True):
+                    ud = prev["x0"][: sysm.nu]
+                    for v in list(sysm.g(sysm.t0, qc)) + list(sysm.g_dot(sysm.t0, qc, uc)) + list(sysm.g_ddot(sysm.t0, qc, uc, ud)):
+                        k.assume(v <= ATOL)
+                        k.assume(v >= -ATOL)
+                    gNdd = sysm.g_N_ddot(sysm.t0, qc, uc, prev["x1"][: sysm.nu])
+                    r = sysm.fn("prox_r", 2, *[x for x in np.asarray(sysm.W_N(sysm.t0, qc), dtype=object).ravel()])
+                    for i in range(2):
+                        k.assume(S._coerce(r[i] * gNdd[i] - prev["la_N1"][i]) < 0)
+
+            helper.extra_inv = extra_inv
         run = loopcut.cut(base.consistent_initial_conditions, loop=0)
         k.loop_info = run.info
         printed = []
@@ -243,9 +260,7 @@ for _mode in ("entry", "iter", "exhausted"):
     contract("C16", f"consistent_initial_conditions[friction=True,directions=1]/{_mode}", samples=0, replayable=False, timeout=60, max_paths=4000)(_cic(_mode, True, 1))
     contract("C16", f"consistent_initial_conditions[friction=True,directions=2]/{_mode}", samples=0, replayable=False, timeout=60, max_paths=6000, tiers=("thorough",))(_cic(_mode, True, 2))
 contract("C16", "consistent_initial_conditions[open frictional contact before a closed one]/iter", samples=0, replayable=False, timeout=60, max_paths=6000)(_cic("iter", True, 1, layout=(1, 1)))
-# the variant `both_closed=True` (a sliding contact next to a sticking one, both closed) verifies, but needs 5760 paths /
-# 22 500 obligations / 25 min: it is not registered; that mix is exercised by the bounded native scenes ("pushed" balls)
-# contract("C16", "consistent_initial_conditions[sliding contact next to a sticking one]/iter", ...)(_cic("iter", True, 1, layout=(1, 1), both_closed=True))
+contract("C16", "consistent_initial_conditions[sliding contact next to a sticking one]/iter", samples=0, replayable=False, timeout=60, max_paths=20000, tiers=("thorough",))(_cic("iter", True, 1, layout=(1, 1), both_closed=True))
 
 
 # --------------------------------------------------------------------------- bounded native mechanisms
